@@ -40,17 +40,21 @@ def Err.tag : Err → String
 /-- `from_bytes_32(h)`: `int.from_bytes(h, byteorder="big")`, any length -/
 def fromBytes32 (h : Bytes) : Int := (beNat h : Int)
 
-/-- `Key.sign(h)` with the default (RFC 6979) nonce of `Generator.sign` -/
-def keySign (c : CurveParams) (bf : Int) (k : Key) (h : Bytes) : Except Err Bytes :=
+/-- `Key.sign(h)` over the generator's `sign` method (`signF d val` = `self._generator.sign(d, val)`) -/
+def keySignWith (signF : Int → Int → Except Curve.Err (Int × Int)) (k : Key) (h : Bytes) : Except Err Bytes :=
   match k.se with
   | none => .error .runtime
   | some d =>
-    match Pycoin.RFC6979.sign c bf d (fromBytes32 h) with
+    match signF d (fromBytes32 h) with
     | .error e => .error (.curve e)
     | .ok (r, s) =>
       match Der.sigencodeDer r s with
       | .error e => .error (.der e)
       | .ok blob => .ok blob
+
+/-- `Key.sign(h)` with the default (RFC 6979) nonce of `Generator.sign` -/
+def keySign (c : CurveParams) (bf : Int) (k : Key) (h : Bytes) : Except Err Bytes :=
+  keySignWith (Pycoin.RFC6979.sign c bf) k h
 
 /-- `except (UnexpectedDER, ValueError)` applied to what the DER decoder raises -/
 def derCaught : Der.Err → Bool
@@ -58,14 +62,19 @@ def derCaught : Der.Err → Bool
   | .valueError => true
   | _ => false
 
-/-- `Key.verify(h, sig)`: the arguments of `Generator.verify` are evaluated first (`sigdecode_der` last), all inside the `try` -/
-def keyVerify (c : CurveParams) (bf : Int) (k : Key) (h sig : Bytes) : Except Err Bool :=
+/-- `Key.verify(h, sig)` over the generator's `verify` method: the arguments of `Generator.verify` are evaluated first
+(`sigdecode_der` last), all inside the `try` -/
+def keyVerifyWith (verifyF : Pt → Int → Int → Int → Except Curve.Err Bool) (k : Key) (h sig : Bytes) : Except Err Bool :=
   match Der.sigdecodeDer sig false with
   | .error e => if derCaught e then .ok false else .error (.der e)
   | .ok (r, s) =>
-    match Curve.verify c bf (some k.pub) (fromBytes32 h) r s with
+    match verifyF (some k.pub) (fromBytes32 h) r s with
     | .error e => if e.isValueError then .ok false else .error (.curve e)
     | .ok b => .ok b
+
+/-- `Key.verify(h, sig)` -/
+def keyVerify (c : CurveParams) (bf : Int) (k : Key) (h sig : Bytes) : Except Err Bool :=
+  keyVerifyWith (Curve.verify c bf) k h sig
 
 /-- `Key.public_copy()`: the same object when there is no secret exponent, else `Key(public_pair=…, is_compressed=…)`
 (whose on-curve check the pair has already passed) -/
@@ -89,16 +98,18 @@ structure HState where
   last : Bytes
   deriving Repr
 
-/-- one step: the new state and the answer (computed from the current fields only) -/
-def step (c : CurveParams) (bf : Int) (st : HState) : Step → HState × String
+/-- one step over the generator's `sign` / `verify` methods: the new state and the answer (computed from the current
+fields only) -/
+def stepWith (c : CurveParams) (signF : Int → Int → Except Curve.Err (Int × Int))
+    (verifyF : Pt → Int → Int → Int → Except Curve.Err Bool) (st : HState) : Step → HState × String
   | .sign h =>
-    match keySign c bf st.key h with
+    match keySignWith signF st.key h with
     | .ok blob => ({ st with last := blob }, Pycoin.Hex.encode blob)
     | .error e => (st, "!" ++ e.tag)
   | .verify h sig =>
-    (st, match keyVerify c bf st.key h sig with | .ok b => (if b then "1" else "0") | .error e => "!" ++ e.tag)
+    (st, match keyVerifyWith verifyF st.key h sig with | .ok b => (if b then "1" else "0") | .error e => "!" ++ e.tag)
   | .verifyLast h =>
-    (st, match keyVerify c bf st.key h st.last with | .ok b => (if b then "1" else "0") | .error e => "!" ++ e.tag)
+    (st, match keyVerifyWith verifyF st.key h st.last with | .ok b => (if b then "1" else "0") | .error e => "!" ++ e.tag)
   | .pubCopy => ({ st with key := publicCopy st.key }, "pub")
   | .viaSec =>
     match st.key.sec none with
@@ -108,8 +119,16 @@ def step (c : CurveParams) (bf : Int) (st : HState) : Step → HState × String
       | .error e => (st, "!" ++ e.tag)
       | .ok k' => ({ st with key := k' }, "sec")
 
-def run (c : CurveParams) (bf : Int) : HState → List Step → List String
+def runWith (c : CurveParams) (signF : Int → Int → Except Curve.Err (Int × Int))
+    (verifyF : Pt → Int → Int → Int → Except Curve.Err Bool) : HState → List Step → List String
   | _, [] => []
-  | st, s :: ss => let (st', a) := step c bf st s; a :: run c bf st' ss
+  | st, s :: ss => let (st', a) := stepWith c signF verifyF st s; a :: runWith c signF verifyF st' ss
+
+/-- one step with the generator's own methods -/
+def step (c : CurveParams) (bf : Int) (st : HState) (s : Step) : HState × String :=
+  stepWith c (Pycoin.RFC6979.sign c bf) (Curve.verify c bf) st s
+
+def run (c : CurveParams) (bf : Int) (st : HState) (steps : List Step) : List String :=
+  runWith c (Pycoin.RFC6979.sign c bf) (Curve.verify c bf) st steps
 
 end Pycoin.KeySign
